@@ -101,6 +101,13 @@ class ListProxy(list, ContainerValueMixin):
                 cfg._parent = self.cfg
                 cfg.load_tree(value)  # type: ignore
             elif isinstance(value, Config):
+                expected = (
+                    self.item_field
+                    if isinstance(self.item_field, Schema)
+                    else self.item_field.__schema__  # type: ignore
+                )
+                if value._schema is not expected:
+                    raise ValueError("configuration does not match the item schema")
                 value._parent = self.cfg
                 value._key = self.list_field._key
                 value._container = self
